@@ -5,6 +5,11 @@ from .. import monitors as M
 
 def run(ctx):
     scs = _scn.standard_pool(ctx, ctx.scale(50, 900), ctx.scale(30, 400), ctx.scale(4, 40))
+    # folder and file names in decomposed unicode form (as copied from macOS volumes), nested
+    nfd = {"root": "Cafe\u0301", "profile": "c06-nfd", "tree": {"e\u0301/a\u0308.txt": "x", "e\u0301/sub/b.txt": "y", "top.txt": "t"},
+           "ops": [{"op": "create", "at": "e\u0301", "h": ["md5"], "now": "2026-03-01 12:00:00"}, {"op": "create", "at": "", "h": ["md5"], "now": "2026-03-01 12:00:01"},
+                   {"op": "create", "at": "", "h": ["c4"], "now": "2026-03-01 12:00:02"}, {"op": "verify", "at": ""}, {"op": "info", "at": ""}]}
+    scs.insert(0, nfd)
     return _scn.run_scn(ctx, scs, M.m_c06, assumptions=["the clock is the injected one (freezegun); several runs share a clock second on purpose"])
 
 
